@@ -23,9 +23,10 @@ Proof.
 Qed.
 
 Section Td2dictMember.
+Variable anyb : bool.
 Variable sub : cls -> cls -> bool.
 Hypothesis sub_str : sub cStr cStr = true.
-Notation mem := (member sub).
+Notation mem := (member anyb sub).
 
 Lemma td2dict_monotone t : forall v, wf_ty t -> mem v t = true -> mem v (td2dict t) = true.
 Proof.
@@ -75,7 +76,9 @@ Proof.
         + destruct Hin as [Hin|Hin]; [apply (IHr _ Hin)|apply (IHo _ Hin)]; cbn [snd]; auto;
             [apply (Wr _ Hin)|apply (Wo _ Hin)]. }
     destruct r, o; try exact G.
-    cbn [member]. apply forallb_forall. intros kv _. reflexivity.
+    (* the empty TypedDict admits only the empty dict *)
+    destruct kvs as [|[kk vv] kvs']; [reflexivity|].
+    cbn [forallb fst] in MA. destruct kk; cbn in MA; discriminate MA.
 Qed.
 
 End Td2dictMember.
